@@ -33,6 +33,7 @@ func zzValueInfo(name string, dims []*onnx.TensorShapeProto_Dimension) *onnx.Val
 //	init   []int     per declared input: 1 = also an initializer
 //	extra  int       1 = an additional tensor under an undeclared name is supplied
 //	mutate int       1 = the caller scribbles over the shapes returned by InputShapes() before Run
+//	bare   int       1 = unsupplied inputs shadowed by initializers are not graph outputs either (nothing reads them)
 func H_C13(v *zzverif.T) {
 	v.MapOrders()
 	kinds := v.CStrs("kinds")
@@ -65,7 +66,8 @@ func H_C13(v *zzverif.T) {
 		if isInit[i] == 1 {
 			inits = append(inits, &onnx.TensorProto{Name: names[i], DataType: 1, Dims: []int64{1}, FloatData: []float32{0.5}})
 		}
-		if sup[i] >= 0 || isInit[i] == 1 {
+		// (bare = 1: an unsupplied input that an initializer shadows is read by nothing - no node, no output)
+		if sup[i] >= 0 || (isInit[i] == 1 && !(v.Has("bare") && v.CInt("bare") == 1)) {
 			outputs = append(outputs, zzValueInfo(names[i], nil))
 		}
 	}
@@ -132,7 +134,7 @@ func H_C13(v *zzverif.T) {
 		}
 		dims := make([]int, sup[i])
 		for k := range dims {
-			dims[k] = v.IntIn(fmt.Sprintf("sup%d_%d", i, k), 1, 6)
+			dims[k] = v.IntIn(fmt.Sprintf("sup%d_%d", i, k), 0, 6) // 0: an empty axis
 		}
 		t := v.ShapeTensor(names[i], dims)
 		supplied[i] = t
